@@ -203,16 +203,22 @@ type Cfg struct {
 	Name        string
 	SyncOnWrite bool
 	Buf         int
+	Seg         int64 // WAL segment size (0 = default 64 MiB)
+	NoManifest  bool  // WALStorage without a manifest (no raft pointer is logged or validated)
 }
 
-var cfgs = []Cfg{{"buffered", false, 0}, {"buffered64", false, 64}, {"sync", true, 0}}
+var cfgs = []Cfg{{Name: "buffered"}, {Name: "buffered64", Buf: 64}, {Name: "sync", SyncOnWrite: true}}
+
+// rollCfgs: minimum segment size, used by the roll-over plan in which a filler record (an LSM
+// write on the shared WAL) brings the active segment to a chosen fill level right before a Ready.
+var rollCfgs = []Cfg{{Name: "roll", Seg: 64 << 10, Buf: 8192}, {Name: "roll-nomanifest", Seg: 64 << 10, Buf: 8192, NoManifest: true}}
 
 func (c Cfg) wal(dir string, fs vfs.FS, recovery bool) wal.Config {
 	b := c.Buf
 	if recovery {
 		b = 4096
 	}
-	return wal.Config{Dir: dir, SyncOnWrite: c.SyncOnWrite, BufferSize: b, FS: fs}
+	return wal.Config{Dir: dir, SyncOnWrite: c.SyncOnWrite, BufferSize: b, SegmentSize: c.Seg, FS: fs}
 }
 
 // ---------- recovery ----------
@@ -246,8 +252,10 @@ func openStorage(dir string, cfg Cfg, group uint64) (ws *engine.WALStorage, w *w
 		}
 	}()
 	stage = "manifest-verify"
-	if e := manifest.Verify(dir, nil); e != nil && !os.IsNotExist(e) && !strings.Contains(e.Error(), "no such file") {
-		return nil, nil, nil, stage, e
+	if !cfg.NoManifest {
+		if e := manifest.Verify(dir, nil); e != nil && !os.IsNotExist(e) && !strings.Contains(e.Error(), "no such file") {
+			return nil, nil, nil, stage, e
+		}
 	}
 	stage = "wal-verify"
 	if e := wal.VerifyDir(dir, nil); e != nil {
@@ -258,17 +266,21 @@ func openStorage(dir string, cfg Cfg, group uint64) (ws *engine.WALStorage, w *w
 	if err != nil {
 		return nil, nil, nil, stage, err
 	}
-	stage = "manifest-open"
-	m, err = manifest.Open(dir, nil)
-	if err != nil {
-		_ = w.Close()
-		return nil, nil, nil, stage, err
+	if !cfg.NoManifest {
+		stage = "manifest-open"
+		m, err = manifest.Open(dir, nil)
+		if err != nil {
+			_ = w.Close()
+			return nil, nil, nil, stage, err
+		}
 	}
 	stage = "storage-open"
 	ws, err = engine.OpenWALStorage(engine.WALStorageConfig{GroupID: group, WAL: w, Manifest: m})
 	if err != nil {
 		_ = w.Close()
-		_ = m.Close()
+		if m != nil {
+			_ = m.Close()
+		}
 		return nil, nil, nil, stage, err
 	}
 	return ws, w, m, "", nil
@@ -316,7 +328,9 @@ func recoverImage(dir string, im *crashfs.Image, cfg Cfg) (out recovered) {
 		return out
 	}
 	defer w.Close()
-	defer m.Close()
+	if m != nil {
+		defer m.Close()
+	}
 	st, err := readState(ws)
 	if err != nil {
 		st.Err = "read:" + norm(err.Error())
@@ -352,9 +366,24 @@ type Hist struct {
 	Cfg  string   `json:"cfg"`
 	Ops  []string `json:"ops"`
 	Part string   `json:"part"`
+	Roll *Roll    `json:"roll,omitempty"`
 }
 
-func (h Hist) String() string { return fmt.Sprintf("%s [%s]", h.Cfg, strings.Join(h.Ops, " ")) }
+// Roll: before the last Ready a filler record is appended (and synced) to the shared WAL so that
+// storage call number Call of that Ready finds the active segment in the given alignment class:
+// "room" (fits, 16 bytes to spare), "exact" (fits exactly), "over" (one byte short: rolls over).
+type Roll struct {
+	Call  int    `json:"call"`
+	Class string `json:"class"`
+}
+
+func (h Hist) String() string {
+	s := fmt.Sprintf("%s [%s]", h.Cfg, strings.Join(h.Ops, " "))
+	if h.Roll != nil {
+		s += fmt.Sprintf(" fill-before-last-ready(call=%d,%s)", h.Roll.Call, h.Roll.Class)
+	}
+	return s
+}
 
 type runner struct {
 	base      string
@@ -405,7 +434,7 @@ func (rn *runner) viol(h Hist, sig, desc string) {
 }
 
 func cfgByName(n string) Cfg {
-	for _, c := range cfgs {
+	for _, c := range append(append([]Cfg(nil), cfgs...), rollCfgs...) {
 		if c.Name == n {
 			return c
 		}
@@ -441,31 +470,90 @@ func imageLacks(im *crashfs.Image, acc map[uint32]int64) bool {
 	return false
 }
 
+// probeSizes runs the history without filler and crash recording and returns the active-segment
+// size before the last Ready and the WAL record size of each of its storage calls.
+func (rn *runner) probeSizes(h Hist) (used int64, sizes []int64) {
+	ph := h
+	ph.Roll = nil
+	rn.exec(ph, true, 0, func(u int64, sz []int64) { used, sizes = u, sz })
+	return used, sizes
+}
+
 func (rn *runner) run(h Hist) {
+	fill := 0
+	if h.Roll != nil {
+		cfg := cfgByName(h.Cfg)
+		used, sizes := rn.probeSizes(h)
+		if h.Roll.Call >= len(sizes) || sizes[h.Roll.Call] == 0 {
+			vr.Fatalf("%s: call %d writes no WAL record", h, h.Roll.Call)
+		}
+		spare := map[string]int64{"room": 16, "exact": 0, "over": -1}[h.Roll.Class]
+		var prior int64
+		for _, z := range sizes[:h.Roll.Call] {
+			prior += z
+		}
+		f := cfg.Seg - spare - used - prior - sizes[h.Roll.Call]
+		if f < 9 {
+			vr.Fatalf("%s: no room for a filler (used=%d)", h, used)
+		}
+		fill = int(f)
+	}
+	rn.exec(h, false, fill, nil)
+}
+
+// exec runs one history. probe=true: plain fs, no recording, sizes of the last Ready reported.
+func (rn *runner) exec(h Hist, probe bool, fill int, report func(used int64, sizes []int64)) {
 	p := rn.p
 	cfg := cfgByName(h.Cfg)
 	dir := filepath.Join(rn.base, "main")
 	_ = os.RemoveAll(dir)
 	_ = os.MkdirAll(dir, 0o755)
 	defer os.RemoveAll(dir)
-	fs := crashfs.New(dir, crashfs.Options{Torn: true})
+	opt := crashfs.Options{Torn: true}
+	if probe {
+		opt = crashfs.Options{NoImages: true}
+	}
+	fs := crashfs.New(dir, opt)
 	w, err := wal.Open(cfg.wal(dir, fs, false))
 	if err != nil {
 		vr.Fatalf("wal open: %v", err)
 	}
-	m, err := manifest.Open(dir, fs)
-	if err != nil {
-		vr.Fatalf("manifest open: %v", err)
+	var m *manifest.Manager
+	if !cfg.NoManifest {
+		m, err = manifest.Open(dir, fs)
+		if err != nil {
+			vr.Fatalf("manifest open: %v", err)
+		}
 	}
 	ws, err := engine.OpenWALStorage(engine.WALStorageConfig{GroupID: 1, WAL: w, Manifest: m})
 	if err != nil {
 		vr.Fatalf("storage open: %v", err)
 	}
-	fs.Start()
+	if !probe && h.Roll == nil {
+		fs.Start()
+	}
 	s := mstate{Log: map[uint64]ent{}}
 	var recs []opRec
+	var lastUsed int64
+	var lastSizes []int64
 	for k, name := range h.Ops {
 		fs.SetLabel(strconv.Itoa(k))
+		if k == len(h.Ops)-1 {
+			lastUsed = w.ActiveSize()
+			if !probe && h.Roll != nil {
+				fs.Start() // crash points of the prefix are those of the shorter histories
+				fs.SetLabel(strconv.Itoa(k))
+			}
+			if fill > 0 {
+				// an LSM write of the DB sharing this WAL, made durable as a SyncWrites commit does
+				if _, err := w.AppendRecords(wal.Record{Type: wal.RecordTypeEntry, Payload: make([]byte, fill-9)}); err != nil {
+					vr.Fatalf("filler: %v", err)
+				}
+				if err := w.Sync(); err != nil {
+					vr.Fatalf("filler sync: %v", err)
+				}
+			}
+		}
 		rec := opRec{Name: name, States: []mstate{s}}
 		acc := map[uint32]int64{}
 		if len(recs) > 0 {
@@ -505,7 +593,11 @@ func (rn *runner) run(h Hist) {
 				}
 				s = s.apply(c)
 				rec.States = append(rec.States, s)
-				rec.Accepted = append(rec.Accepted, walBytes(w, rec.Accepted[len(rec.Accepted)-1]))
+				prevAcc := rec.Accepted[len(rec.Accepted)-1]
+				rec.Accepted = append(rec.Accepted, walBytes(w, prevAcc))
+				if k == len(h.Ops)-1 {
+					lastSizes = append(lastSizes, w.ActiveSize()-prevAcc[w.ActiveSegment()])
+				}
 			}
 			fs.Mark("sent")
 		}
@@ -514,15 +606,30 @@ func (rn *runner) run(h Hist) {
 	pts := fs.Stop()
 	// clean close: exact recovery
 	_ = w.Close()
-	_ = m.Close()
+	if m != nil {
+		_ = m.Close()
+	}
+	if probe {
+		report(lastUsed, lastSizes)
+		return
+	}
+	roll := ""
+	if h.Roll != nil {
+		last := recs[len(recs)-1]
+		roll = fmt.Sprintf(" roll=%s.%s/%s", last.Name, last.Calls[h.Roll.Call].Kind, h.Roll.Class)
+		if h.Roll.Class == "over" && len(last.Accepted[len(last.Accepted)-1]) < 2 {
+			vr.Fatalf("%s: the filler did not make the WAL roll over", h)
+		}
+		p.Mark("roll_cases", roll)
+	}
 	if im, err := crashfs.Capture(dir, nil); err == nil {
 		r := rn.recoverCached(im, cfg)
 		rn.curImg, rn.curRec, rn.curCfg = im, &r, cfg
 		switch {
 		case r.Err != "":
-			rn.viol(h, fmt.Sprintf("clean-reopen cfg=%s got=refused:%s", cfgClass(cfg), r.Err), r.Det)
+			rn.viol(h, fmt.Sprintf("clean-reopen cfg=%s%s got=refused:%s", cfgClass(cfg), roll, r.Err), r.Det)
 		case !matchLog(r, s) || r.Term != s.Term || r.Vote != s.Vote || r.Commit != s.Commit:
-			rn.viol(h, fmt.Sprintf("clean-reopen cfg=%s got=state-differs", cfgClass(cfg)), fmt.Sprintf("model %s; recovered term=%d vote=%d commit=%d first=%d last=%d snap=%d log=%v", s, r.Term, r.Vote, r.Commit, r.First, r.Last, r.SnapIx, r.Log))
+			rn.viol(h, fmt.Sprintf("clean-reopen cfg=%s%s got=state-differs", cfgClass(cfg), roll), fmt.Sprintf("model %s; recovered term=%d vote=%d commit=%d first=%d last=%d snap=%d log=%v", s, r.Term, r.Vote, r.Commit, r.First, r.Last, r.SnapIx, r.Log))
 		}
 	}
 	p.Add("histories", 1)
@@ -555,7 +662,7 @@ func (rn *runner) run(h Hist) {
 		unflushed := !cfg.SyncOnWrite && imageLacks(pt.Image, acc)
 		r := rn.recoverCached(pt.Image, cfg)
 		rn.curImg, rn.curRec, rn.curCfg = pt.Image, &r, cfg
-		ctx := fmt.Sprintf("cfg=%s at=%s unflushed=%v", cfgClass(cfg), at, unflushed)
+		ctx := fmt.Sprintf("cfg=%s at=%s unflushed=%v%s", cfgClass(cfg), at, unflushed, roll)
 		if r.Err != "" {
 			rn.viol(h, fmt.Sprintf("%s got=reopen-refused:%s", ctx, r.Err), fmt.Sprintf("point %s image{%s}: %s", pt.String(), pt.Image.Describe(), r.Det))
 			p.Mark("outcomes", ctx+"|refused")
@@ -596,10 +703,26 @@ func (rn *runner) run(h Hist) {
 }
 
 func cfgClass(c Cfg) string {
-	if c.SyncOnWrite {
+	switch {
+	case c.SyncOnWrite:
 		return "sync"
+	case c.NoManifest:
+		return "buffered-nomanifest"
 	}
 	return "buffered"
+}
+
+// lastCalls returns the storage calls of the last op of a path (nil for shared-WAL events).
+func lastCalls(ops []string) []call {
+	s := mstate{Log: map[uint64]ent{}}
+	var calls []call
+	for k, o := range ops {
+		calls = ready(o, s, k)
+		for _, c := range calls {
+			s = s.apply(c)
+		}
+	}
+	return calls
 }
 
 func enumerate(readyOps []string, depth int, fn func(ops []string)) {
@@ -659,6 +782,7 @@ func main() {
 	if r.Thorough() {
 		plans = []plan{{readyAll, 5}, {readyCore, 6}}
 	}
+	rollDepth := r.Pick(2, 3)
 	total := r.RunSharded(vr.Workers(), func(sh vr.ShardInfo, p *vr.Partial) {
 		rn := &runner{base: r.Scratch(), cache: map[string]recovered{}, p: p}
 		item := 0
@@ -683,6 +807,39 @@ func main() {
 				}
 			})
 		}
+		// roll-over plan: every Ready kind, after every short prefix, with the segment filled so that
+		// each of its WAL-writing storage calls in turn fits with room / fits exactly / rolls over
+		rollPaths := [][]string{}
+		enumerate(readyCore, rollDepth, func(ops []string) { rollPaths = append(rollPaths, ops) })
+		if rollDepth < 3 {
+			// the kinds that need a longer prefix to be enabled: conflicting overwrite, commit(+compact)
+			rollPaths = append(rollPaths, []string{"elect", "prop", "ovw"}, []string{"termup", "prop", "ovw"}, []string{"elect", "prop", "commit"}, []string{"elect", "prop2", "ovw"})
+		}
+		for _, ops := range rollPaths {
+			if os.Getenv("VERIF_C21_SKIP_ROLL") != "" { // timing experiments only
+				break
+			}
+			calls := lastCalls(ops)
+			for j, c := range calls {
+				if c.Kind == "compact" {
+					continue
+				}
+				for _, class := range []string{"room", "exact", "over"} {
+					item++
+					if !sh.Owns(item) || r.Expired() {
+						continue
+					}
+					for _, c := range rollCfgs {
+						h := Hist{Cfg: c.Name, Ops: ops, Part: "A", Roll: &Roll{Call: j, Class: class}}
+						rn.run(h)
+						p.Add("roll_histories", 1)
+						if item%37 == 0 {
+							p.Sample(h.String())
+						}
+					}
+				}
+			}
+		}
 		for i, sc := range peerScripts {
 			if !sh.Owns(i) || r.Expired() {
 				continue
@@ -704,13 +861,13 @@ func main() {
 		Level:       "fault_enumeration",
 		Evaluations: total.Counters["points"] + total.Counters["peer_points"],
 		Distinct:    total.Counters["nontrivial"],
-		Rule:        "A: every sequence (bounded depth) of model-generated Readys {elect (term+vote), term-up without vote, vote grant in the current term, prop, prop2, conflicting overwrite by a new leader, commit+compact, commit-only, snapshot} and shared-WAL events {Sync, segment switch}, applied to the real WALStorage in handleReady order with a 'messages sent' mark after each Ready, under 3 WAL configurations; every vfs crash point incl. torn writes recovered with manifest.Verify/Open + wal.VerifyDir/Open + OpenWALStorage; plus exact comparison after a clean close. B: real Peer scripts with an image inside every transport.Send. distinct_nontrivial = accepted recoveries from torn-write images or images lacking WAL bytes the manager had accepted",
+		Rule:        "A: every sequence (bounded depth) of model-generated Readys {elect (term+vote), term-up without vote, vote grant in the current term, prop, prop2, conflicting overwrite by a new leader, commit+compact, commit-only, snapshot} and shared-WAL events {Sync, segment switch}, applied to the real WALStorage in handleReady order with a 'messages sent' mark after each Ready, under 3 WAL configurations; every vfs crash point incl. torn writes recovered with manifest.Verify/Open + wal.VerifyDir/Open + OpenWALStorage; plus exact comparison after a clean close; roll-over plan: minimum (64 KiB) segments, a synced filler record places each WAL-writing storage call of the last Ready at 'fits with room' / 'fits exactly' / 'rolls over to a new segment', with and without a manifest. B: real Peer scripts with an image inside every transport.Send. distinct_nontrivial = accepted recoveries from torn-write images or images lacking WAL bytes the manager had accepted",
 		Samples:     total.SamplesAny(),
 		Exhaustive:  !total.TimedOut,
 		Outcomes:    out,
-		Bounds:      map[string]any{"plans": planDesc, "ready_kinds": readyAll, "external_ops": extOps, "wal_configs": []string{"buffered(default bufio)", "buffered(64-byte bufio)", "SyncOnWrite"}, "peer_scripts": len(peerScripts)},
+		Bounds:      map[string]any{"plans": planDesc, "rollover_plan": fmt.Sprintf("64 KiB segments, with and without manifest; every history of length<=%d (core kinds + shared-WAL events; plus [elect|termup prop ovw], [elect prop2 ovw], [elect prop commit]) x every WAL-writing call of its last Ready x {fits with room, fits exactly, rolls over}", rollDepth), "ready_kinds": readyAll, "external_ops": extOps, "wal_configs": []string{"buffered(default bufio)", "buffered(64-byte bufio)", "SyncOnWrite"}, "peer_scripts": len(peerScripts)},
 		Extra: map[string]any{"histories": total.Counters["histories"], "distinct_image_recoveries": total.Counters["recoveries"], "shared_recoveries": total.Counters["cache_hits"],
-			"max_points_per_history": total.Counters["max_points"], "point_classes": total.Card("point_classes"), "peer_sends_checked": total.Counters["peer_points"]},
+			"max_points_per_history": total.Counters["max_points"], "point_classes": total.Card("point_classes"), "peer_sends_checked": total.Counters["peer_points"], "rollover_histories": total.Counters["roll_histories"], "rollover_alignment_cases": total.Card("roll_cases")},
 		Assumptions: []string{"process-crash model: completed write(2)s survive, bufio contents are lost", "the Ready sequences come from a reference model of raft state, not from etcd raft itself (part B uses the real RawNode)",
 			"MaybeCompact is in-memory + manifest only; entries below the compaction point may reappear after a crash and are not compared"},
 	})
